@@ -264,6 +264,28 @@ func (p *Prog) NamedType(short, name string) *types.Named {
 	return n
 }
 
+// InModule reports whether fn is a source function of the analysed module.
+func (p *Prog) InModule(fn *ssa.Function) bool {
+	if fn == nil {
+		return false
+	}
+	if o := fn.Origin(); o != nil {
+		fn = o
+	}
+	for fn.Parent() != nil {
+		fn = fn.Parent()
+	}
+	if fn.Pkg == nil {
+		return false
+	}
+	for _, pk := range p.Pkgs {
+		if p.SSAPkgs[pk.PkgPath] == fn.Pkg {
+			return true
+		}
+	}
+	return false
+}
+
 // RepoFuncs lists every source function (incl. anonymous) of the module with a body.
 func (p *Prog) RepoFuncs() []*ssa.Function {
 	var out []*ssa.Function
